@@ -33,6 +33,12 @@ Proof. exact rejects_after_shutdown_all. Qed.
 Theorem c29_closed : forall fx, closed_after_shutdown fx.
 Proof. exact closed_after_shutdown_all. Qed.
 
+(* Whenever ThreadGroup::shut_down has set its flag and the group lock is free (in
+   particular once the call has returned) the pool's flag is set too, so by c29_reject
+   every later submission is refused. *)
+Theorem c29_group_shutdown_closes_pool : forall s, reachable true s -> gsd s = true -> glock s = false -> psd s = true.
+Proof. exact group_shutdown_closes_pool. Qed.
+
 (* `available_workers -= 1` and `thread_count -= 1` never underflow (no panic). *)
 Theorem c29_no_underflow : forall s, reachable true s -> crashed s = false.
 Proof. exact no_crash_reachable. Qed.
@@ -94,6 +100,7 @@ Print Assumptions c29_exactly_once.
 Print Assumptions c29_await.
 Print Assumptions c29_reject.
 Print Assumptions c29_closed.
+Print Assumptions c29_group_shutdown_closes_pool.
 Print Assumptions c29_no_underflow.
 Print Assumptions c29_progress.
 Print Assumptions c29_measure.
